@@ -3,7 +3,10 @@
 
 package regex
 
-import "regexp"
+import (
+	"bytes"
+	"regexp"
+)
 
 // IncludeRegex matches an include processor line (##! include <value>).
 // The value is captured in group 1.
@@ -64,6 +67,23 @@ var RuleRxRegex = regexp.MustCompile(`^(.*?"!?@rx )(.*)(" \\)(.*)`)
 // SecRuleRegex matches any SecRule line: the directive at the start of the line,
 // not a mention of it in a comment or in the text of an action.
 var SecRuleRegex = regexp.MustCompile(`^\s*SecRule\s`)
+
+// quotedActionValueRegex matches a single-quoted action value (e.g., msg:'...').
+var quotedActionValueRegex = regexp.MustCompile(`'(?:[^'\\]|\\.)*'`)
+
+// chainActionRegex matches the `chain` action among the actions of a line
+// from which the quoted values have been removed.
+var chainActionRegex = regexp.MustCompile(`(?:^|[\s",])chain(?:[\s",\\]|$)`)
+
+// HasChainAction reports whether a line of a rule carries the `chain` action.
+// The word in a comment, or inside the quoted value of another action
+// (e.g., msg:'Supply chain attack'), is not the action.
+func HasChainAction(line []byte) bool {
+	if bytes.HasPrefix(bytes.TrimLeft(line, " \t"), []byte("#")) {
+		return false
+	}
+	return chainActionRegex.Match(quotedActionValueRegex.ReplaceAll(line, nil))
+}
 
 // RuleIdFileNameRegex matches the rule ID in a regex-assembly file name (<id>-<chain>.ra).
 // The rule ID is captured in group 1, the optional chain offset in group2,
